@@ -32,6 +32,7 @@ def run(ctx, crate):
     from .c11 import rule_arm_buffer_fresh
     rule_arm_buffer_fresh(ctx, crate)
     rule_brace_not_dropped(ctx, crate)
+    rule_chars_not_bytes(ctx, crate)
 
 
 def rule_brace_not_dropped(ctx, crate, rule="R-BRACE-NOT-DROPPED"):
@@ -89,3 +90,28 @@ def rule_brace_not_dropped(ctx, crate, rule="R-BRACE-NOT-DROPPED"):
                       "leaving the pending-'{' state towards Literal re-emits the brace as literal text",
                       "with a '{' pending (state MaybeOpen) the parser returns to Literal without emitting the brace: the '{' vanishes from the rendering", cfg)
     ctx.floor(rule, n, 1, cfg, "MaybeOpen -> (Literal, None) transitions")
+
+
+def rule_chars_not_bytes(ctx, crate, rule="R-PARSE-CHARS"):
+    """"preserves literal text" for arbitrary Unicode: every character the parser appends to its buffer comes from
+    `str::chars()` of the template — never from bytes converted one by one (that turns each UTF-8 byte into a Latin-1
+    character)."""
+    cfg = crate.config
+    b = K.find_one(ctx, crate, rule, r"style::Template::from_str_with_tab_width")
+    if not b:
+        return
+    n = 0
+    for c in b.calls(r"std::string::String::push"):
+        sl = b.slice_args(c, [1])
+        if not sl.calls:
+            continue          # pushes of constant characters
+        n += 1
+        from_chars = any(x.matches(r"std::iter::Iterator::next") and "Chars" in ((x.callee.get("self_ty") or "") + " ".join(x.callee.get("targs") or [])) for x in sl.calls) or \
+            sl.has_call(r"core::str::<impl str>::chars")
+        bytewise = [x.path for x in sl.calls if x.matches(r"core::str::<impl str>::(bytes|as_bytes)", r"std::string::String::(as_bytes|into_bytes)")] or \
+            [a for a in sl.atoms if a[0] == "cast" and a[1] == "char"] or \
+            [x.path for x in sl.calls if x.matches(r"std::convert::From::from") and "u8" in " ".join(x.callee.get("targs") or [])]
+        ctx.check(from_chars and not bytewise, rule, "pushed-char#%d" % (n - 1), b.name, c.loc(),
+                  "the pushed character is a character of the template (str::chars)",
+                  "the parser builds its text from bytes converted to chars: non-ASCII literal text is corrupted", cfg)
+    ctx.floor(rule, n, 1, cfg, "characters of the template pushed into the parser's buffer")
